@@ -55,6 +55,7 @@ func randReqKind(rng *rand.Rand, r *Req, drainMs int) {
 	case x < 8:
 		r.Kind = "slow"
 		r.HoldMs = offGrid(rng, 20, drainMs+600)
+		r.Chunked = r.HoldMs%3 == 0 // a response that is already under way when the hold begins
 	case x < 9:
 		r.Kind = "forever"
 	default:
@@ -86,6 +87,9 @@ func GenDeploy(seed int64, idx int, tier string) *Plan {
 	p := &Plan{Family: "deploy", Seed: seed*1000003 + int64(idx), Targets: map[string]TargetScript{}, QuantumMs: 100, SettleMs: 9000}
 	p.Urgent = rng.Intn(3) > 0
 	pickSched(rng, p)
+	if idx%8 == 7 {
+		return sickTargetTemplate(rng, p, "deploy")
+	}
 	nDeploys := 2 + rng.Intn(2)
 	if tier == "thorough" {
 		nDeploys = 2 + rng.Intn(3)
@@ -144,6 +148,50 @@ func GenDeploy(seed int64, idx int, tier string) *Plan {
 			cl = append(cl, r)
 		}
 		p.Clients = append(p.Clients, cl)
+	}
+	return p
+}
+
+// sickTargetTemplate: a target stops answering its probes while requests it accepted are still running; then a command
+// that drains it (redeploy, pause or stop) is issued before a probe succeeds again. The target is out of rotation but
+// not idle: the command still has to wait for those requests, or cut them at the deadline.
+func sickTargetTemplate(rng *rand.Rand, p *Plan, family string) *Plan {
+	ok := ProbeOutcome{Class: "ok"}
+	bad := func() ProbeOutcome {
+		return []ProbeOutcome{{Class: "refuse"}, {Class: "bad", Status: 500}, {Class: "bad", Status: 503}}[rng.Intn(3)]
+	}
+	f := bad()
+	p.Targets["t1"] = TargetScript{Probes: []ProbeOutcome{ok, ok}, Then: f} // healthy at 0 and 1000, failing from 2000 on
+	p.Targets["t2"] = TargetScript{Then: ok}
+	p.Targets["t3"] = TargetScript{Then: ok}
+	drain := []int{500, 1000, 2000}[rng.Intn(3)]
+	lane := []Cmd{{ID: "c1", Kind: "deploy", Svc: "A", Hosts: []string{"a.test"}, Targets: []string{"t1", "t2"}, DeployTimeoutMs: 2500, DrainTimeoutMs: 1000}}
+	c2 := Cmd{ID: "c2", Svc: "A", WaitMs: offGrid(rng, 2300, 2900), DrainTimeoutMs: drain}
+	switch {
+	case family == "deploy" || rng.Intn(3) == 0:
+		c2.Kind, c2.Hosts, c2.Targets, c2.DeployTimeoutMs = "deploy", []string{"a.test"}, []string{"t3"}, 2500
+	case rng.Intn(2) == 0:
+		c2.Kind, c2.MaxPauseMs = "pause", 2500
+	default:
+		c2.Kind, c2.Msg = "stop", "later"
+	}
+	lane = append(lane, c2)
+	if c2.Kind != "deploy" {
+		lane = append(lane, Cmd{ID: "c3", Kind: "resume", Svc: "A", WaitMs: offGrid(rng, 300, 900)})
+	}
+	p.Lanes = [][]Cmd{lane}
+	// requests accepted while both targets are healthy, some still running when the command comes, some beyond its deadline
+	for i := 0; i < 4; i++ {
+		r := Req{ID: fmt.Sprintf("r%d", i+1), Svc: "A", Host: "a.test", Path: "/x", After: "c1", WaitMs: offGrid(rng, 100, 900)}
+		switch rng.Intn(3) {
+		case 0:
+			r.Kind, r.HoldMs = "slow", offGrid(rng, 1800, 2600+drain/2)
+		case 1:
+			r.Kind, r.HoldMs = "slow", 2600+drain+offGrid(rng, 300, 900)
+		default:
+			r.Kind = "forever"
+		}
+		p.Clients = append(p.Clients, []Req{r})
 	}
 	return p
 }
